@@ -57,6 +57,7 @@ structure Cfg where
 structure St where
   cursor : Nat
   emitting : Nat
+  closes : Nat              -- ghost: number of calls of P.Close
   srcClosed : Bool
   badWindow : Bool
   badOverlap : Bool
@@ -87,7 +88,7 @@ inductive Label
   deriving DecidableEq, Repr
 
 def init (cfg : Cfg) : St :=
-  { cursor := 0, emitting := 0, srcClosed := false, badWindow := false, badOverlap := false,
+  { cursor := 0, emitting := 0, closes := 0, srcClosed := false, badWindow := false, badOverlap := false,
     prod := .check, ch := [], chClosed := false,
     wIdle := cfg.c, wCb := [], wDrain := 0, wExit := 0, called := [], firstErr := false,
     ctx0 := false, wcancel := false, term := .waitWg, res := none, errBudget := cfg.e, faulted := false }
@@ -154,7 +155,7 @@ def step (cfg : Cfg) (s : St) : Label → Option St
   | .tCancelW => if s.term = .cancelW then some { s with term := .close0, wcancel := true } else none
   | .tClose0 =>
     if s.term = .close0 then
-      some { s with term := .close1, srcClosed := true, badOverlap := s.badOverlap || decide (0 < s.emitting) }
+      some { s with term := .close1, srcClosed := true, closes := s.closes + 1, badOverlap := s.badOverlap || decide (0 < s.emitting) }
     else none
   | .tClose1 => if s.term = .close1 then some { s with term := .ret } else none
   | .cancel => if s.ctx0 then none else some { s with ctx0 := true }
